@@ -6,6 +6,7 @@ disagreement, (c) MAX_LEVEL is the max over live hints with "no hint" = TRACE, a
 exactly static ∧ max ∧ interest≠never ∧ (always ∨ current.enabled()), then the shortcuts only skip work.
 Each premise is a shape of code decided here.
 """
+from rulekit.query import rebuild_interest_path
 from rulekit import Facts, where, proj_names
 from rulekit.sym import PathEval, show
 from rulekit.query import guards_of, ordering_of, ORD_RANK, const_int, recv_fields, field_users
@@ -359,7 +360,7 @@ def r5(ck, F, rid="C01.R5"):
         else:
             ck.bad(rid, "filter_map drops only dead registrars; live ones are asked register_callsite", CS + "rebuild_callsite_interest::{closure#0}",
                    "closure is not `registrar.upgrade().map(|d| d.register_callsite(meta))`")
-    ri = F.body(CS + "rebuild_interest")
+    ri = F.body(rebuild_interest_path(F))
     rc = F.body(CS + "rebuild_interest::{closure#0}")
     if ck.anchor(rid, "rebuild_interest", ri) and ck.anchor(rid, "rebuild_interest retain closure", rc):
         # retain closure table
@@ -537,7 +538,7 @@ def r6(ck, F):
         b = F.body(CS + fn)
         if not ck.anchor("C01.R6", fn, b):
             continue
-        rb = [bb for bb, t in b.calls() if t["callee"].get("path") == CS + "rebuild_interest"]
+        rb = [bb for bb, t in b.calls() if t["callee"].get("path") == rebuild_interest_path(F)]
         if len(rb) == 1 and b.postdominates(rb[0], 0):
             ck.ok("C01.R6", "%s rebuilds every cached interest and the max level" % fn, fn=b.path)
         else:
@@ -546,7 +547,7 @@ def r6(ck, F):
     b = F.body(CS + "register_dispatch")
     if b:
         push = [bb for bb, t in b.calls() if t["callee"].get("method") == "push"]
-        rb = [bb for bb, t in b.calls() if t["callee"].get("path") == CS + "rebuild_interest"]
+        rb = [bb for bb, t in b.calls() if t["callee"].get("path") == rebuild_interest_path(F)]
         if len(push) == 1 and rb and b.dominates(push[0], rb[0]):
             t = b.term(push[0])
             src = b.origin(t["argv"][1])
@@ -578,7 +579,7 @@ def r7(ck, F, rid="C01.R7"):
     else:
         ck.bad(rid, "MAX_LEVEL written only by LevelFilter::set_max", str(sorted(writers)), "writers: %s" % sorted(writers))
     callers = {b.path for b, bb, t in F.callers().get("tracing_core::metadata::LevelFilter::set_max", [])}
-    allowed = {CS + "rebuild_interest", CS + "register_dispatch"}
+    allowed = {rebuild_interest_path(F), CS + "register_dispatch"}
     if callers and callers <= allowed:
         ck.ok(rid, "set_max called only from the registry rebuild", detail=sorted(callers))
     else:
@@ -701,7 +702,7 @@ def rebuild_unconditional(ck, rid="C01.R15"):
     recorded earlier" is exactly the stale shortcut the property forbids."""
     for cfg in ("default", "nostd-core"):
         F = Facts(cfg)
-        b = F.body(CS + "rebuild_interest")
+        b = F.body(rebuild_interest_path(F))
         if not ck.anchor(rid, "callsite::rebuild_interest [%s]" % cfg, b):
             continue
         sm = [bb for bb, t in b.calls() if t["callee"].get("path") == "tracing_core::metadata::LevelFilter::set_max"]
